@@ -53,6 +53,9 @@ CANCEL_FORCE_SWEEP_METHODS = [
     ["Base: s", "Alarm: In < 1 L/h", "    Mark: AL", "    Wait: 0.3s", "Block: B1", "    0.5 Short", "    End block", "Mark: X", ""],
 ]
 
+EDIT_SWEEP_METHOD = ["Base: s", "Macro: M", "    Mark: a", "    Wait: 0.5s", "    Mark: b", "Call macro: M", "Wait: 0.3s", "Call macro: M",
+                     "Mark: end", ""]
+
 CONTROLS = ["Start", "Stop", "Pause", "Unpause", "Hold", "Unhold", "Restart"]
 SNIPPETS = ["Mark: inj", "Set1: 1", "Set1: 2", "Short", "Long", "Wait: 0.2s", "Block: IB\n    Mark: ib\n    End block", "Fail",
             "Pause: 0.2s", "Hold: 0.2s"]
@@ -150,7 +153,7 @@ def program_schedules(rnd, n_ticks, variant, fixed=None):
         elif variant == "inject" and r < 0.1:
             req.append({"k": "inject", "text": rnd.choice(SNIPPETS[:7])})
         elif variant == "edit" and r < 0.12:
-            req.append({"k": "editop", "op": rnd.choice(["append", "append", "change-last", "change-first", "insert-blank"]),
+            req.append({"k": "editop", "op": rnd.choice(["append", "append", "change-last", "change-first", "insert-blank", "append-in-macro"]),
                         "text": rnd.choice(["Mark: ed", "Short", "Wait: 0.2s", "Set1: 9"])})
         elif variant == "stoprestart" and r < 0.06:
             req.append({"k": "control", "name": rnd.choice(["Stop", "Restart", "Start"])})
@@ -193,6 +196,15 @@ def build(ctx: core.Ctx):
                         [{"req": [{"k": kind, "item": item}]}] + [{} for _ in range(12)]
                     runs.append(dict(_run(f"cfs-{n}", "prog", method, steps), variant="cancelforce"))
                     n += 1
+    # live edits at every tick of a method that calls a macro twice: a new line at the end of the method, inside the macro body,
+    # a changed last line
+    n = 0
+    for op in ("append-in-macro", "append", "change-last"):
+        for at in range(1, 24 if ctx.quick else 30):
+            steps = [{"req": [{"k": "control", "name": "Start"}], "in": {"In": 0.0}}] + [{} for _ in range(at)] + \
+                [{"req": [{"k": "editop", "op": op, "text": "Mark: ed"}]}] + [{} for _ in range(16)]
+            runs.append(dict(_run(f"swe-{n}", "prog", EDIT_SWEEP_METHOD, steps), variant="edit"))
+            n += 1
     nrnd = 600 if ctx.quick else 3000
     for i in range(nrnd):
         method = rnd.choice(METHOD_POOL)
@@ -389,7 +401,7 @@ def project_commands(run):
                 kind += "-in-ended-block"            # its block has ended: nothing is left that could proceed
             out.append({"e": "req", "k": e["k"], "item": e["item"], "node": node, "offered": bool(e.get("offered")),
                         "res": "ok" if e["res"] == "ok" else "rejected", "unchanged": bool(e.get("unchanged", True)),
-                        "kind": kind, "target": e["item"], "runId": run_id, "t": e["t"],
+                        "kind": kind, "cls": cls, "target": e["item"], "runId": run_id, "t": e["t"],
                         "stale": item_resets.get(e["item"], 0) < resets.get(node, 0)})
         elif k == "runStopped":
             open_ = [ln["name"] for ln in e["lines"]
